@@ -93,7 +93,7 @@ def run_impl(fns, kind, names, rows, ops, tmpdir):
     """returns (canonical text, [(stream, first listing text, items, pipe)], getitem error or None)"""
     CE = fns[2]
     cur = make_stream(fns, kind, names, rows, tmpdir)
-    parts, seen, err = [], [], None
+    parts, seen, err, alias = [], [], None, []
     for k in list(ops) + [None]:
         text, items = listing(cur)
         pipe = pipe_text(cur)
@@ -116,12 +116,28 @@ def run_impl(fns, kind, names, rows, ops, tmpdir):
                     key = built
                 except (ValueError, SyntaxError, KeyError):
                     pass        # not a literal / not a column: the text form is used
+            prev = cur
             cur = cur[key]
+            alias.append(alias_text(prev, cur) + ";operand:" + pipe_text(prev))
         except Exception as e:
             err = type(e).__name__
             parts.append("getitem:" + err)
+            alias.append("getitem:" + err)
             break
+    run_impl.alias = " | ".join(alias)
     return " | ".join(parts), seen, err
+
+
+def alias_text(a, b):
+    """which fields of the stream returned by a step are the very objects its operand holds (object-level model
+    PydapModel/IterHeap.lean, theorem audit round 7): the source and `root` are shared, the three lists and the
+    template are new objects"""
+    def m(x, y):
+        return "shared" if x is y else "new"
+    src = m(a.stream, b.stream) if not hasattr(a, "filepath") else ("shared" if a.filepath == b.filepath else "new")
+    return "stream:%s,template:%s,ifilter:%s,imap:%s,islice:%s,root:%s" % (
+        src, m(a.template, b.template), m(a.ifilter, b.ifilter), m(a.imap, b.imap), m(a.islice, b.islice),
+        m(a.root, b.root))
 
 
 # ---- by-name reference ------------------------------------------------------------------------------------
@@ -187,6 +203,8 @@ def check_program(ctx, fns, kind, names, rows, ops, resolved, cases, tmpdir, whe
     case = {"backend": kind, "names": names, "rows": [list(r) for r in rows], "ops": [list(k) for k in ops],
             "resolved": resolved}
     cases.append((line, text, case))
+    if ops:
+        cases.append(("iterheap-run" + line[len("iter-run"):], run_impl.alias, dict(case, what="aliasing")))
     exp = reference(names, rows, ops, resolved)
     size = len(ops) * 100 + len(rows) * 10 + len(names)
     for n, (stream, first, items, pipe) in enumerate(seen):
